@@ -288,17 +288,43 @@ def attribute_case(kind, supplied, version, restart, part):
                 list(reversed(supplied['names'])), None, list(reversed(supplied['groups'])),
                 list(reversed(supplied['appinfo'])))))
             other = ro.uid() if ro.items[0].ok() else None
+        origin = kind.partition('@')[2] or 'register'
+        full_kind, kind = kind, kind.partition('@')[0]
+        if origin != 'register' and supplied['masks'] is None:
+            # the server insists on a usage mask for objects it generates: supply one
+            supplied = dict(supplied, masks=[CUM.VERIFY] if kind == 'PublicKey' else [CUM.SIGN])
+            attrs.append(W.attr(AT.CRYPTOGRAPHIC_USAGE_MASK, supplied['masks']))
+        uid_tag = W.TAG.UNIQUE_IDENTIFIER
         try:
-            r = w.do(version, W.p_register(W.KINDS[kind](), attrs))
+            if origin == 'register':
+                item = W.p_register(W.KINDS[kind](), attrs)
+            elif origin == 'create':
+                item = W.p_create(W.sym_attrs(masks=None) + attrs)
+            elif origin == 'derive':
+                rb = w.do((1, 4), W.p_register(W.pie_symmetric(b'\x5a' * 16), [
+                    W.attr(AT.CRYPTOGRAPHIC_USAGE_MASK, [CUM.DERIVE_KEY])]))
+                w.do((1, 4), W.p_activate(rb.uid()))
+                item = W.p_derive_key([rb.uid()], attrs=W.sym_attrs(masks=None) + attrs)
+            else:   # one half of a generated pair: the supplied attributes go into that half's template
+                pa = W.rsa_pair_attrs()
+                mine = 'public' if kind == 'PublicKey' else 'private'
+                pa[mine] = list(attrs)
+                pa['private' if mine == 'public' else 'public'] = [W.attr(
+                    AT.CRYPTOGRAPHIC_USAGE_MASK, [CUM.SIGN] if mine == 'public' else [CUM.VERIFY])]
+                item = W.p_create_key_pair(**pa)
+                uid_tag = (W.TAG.PUBLIC_KEY_UNIQUE_IDENTIFIER if mine == 'public'
+                           else W.TAG.PRIVATE_KEY_UNIQUE_IDENTIFIER)
+            r = w.do(version, item)
         except Exception:   # noqa - not expressible under this version (e.g. policy name / sensitive)
             part.count('unencodable')
             return
-        ctx = {'kind': kind, 'supplied': {k: (str(v) if k == 'masks' else v) for k, v in supplied.items()},
+        ctx = {'kind': full_kind, 'supplied': {k: (str(v) if k == 'masks' else v) for k, v in supplied.items()},
                'version': list(version), 'restart': restart}
         if not r.items[0].ok():
             part.count('refused')
             return
-        uid = r.uid()
+        part.count('origin_' + origin)
+        uid = r.pfind(uid_tag)
         if other:
             if supplied['groups']:
                 w.do((1, 4), W.p_modify_attribute_1x(other, AT.OBJECT_GROUP, 'renamed-group', 0))
@@ -331,31 +357,42 @@ def attribute_case(kind, supplied, version, restart, part):
             exp['Object Group'] = list(supplied['groups'])
         if supplied['appinfo']:
             exp['Application Specific Information'] = [list(x) for x in supplied['appinfo']]
-        exp = {k: v for k, v in exp.items() if V.attribute_status(k, version) in ('defined', 'deprecated')
-               or k == 'Operation Policy Name' and version < (2, 0)}
-        if version >= (2, 0):
-            exp.pop('Operation Policy Name', None)
-        got = _get_attributes(w, uid, version)
-        lst = _get_attribute_list(w, uid, version)
-        part.count('attribute_cases')
-        part.counters.setdefault('_out', set()).add((kind, version, tuple(sorted(got or {}))))
-        if got is None or lst is None:
-            part.violation("attributes-unreadable|%s" % kind, "GetAttributes/List failed for %s" % kind, ctx)
-            return
-        for name in sorted(set(exp) | set(got)):
-            e, g = exp.get(name), got.get(name)
-            if e is None:
-                part.violation("attribute-extra|%s" % name, "%s under KMIP %d.%d reports '%s'=%r that was neither "
-                               "supplied nor server-assigned" % (kind, version[0], version[1], name, g), ctx)
-            elif g is None:
-                part.violation("attribute-missing|%s" % name, "%s under KMIP %d.%d does not report '%s' (expected %r)"
-                               % (kind, version[0], version[1], name, e), ctx)
-            elif e != ['*'] and e != g:
-                part.violation("attribute-value|%s" % name, "%s under KMIP %d.%d: '%s' is %r, supplied/assigned %r" % (
-                    kind, version[0], version[1], name, g, e), ctx)
-        if sorted(set(lst)) != sorted(set(got)) or len(lst) != len(set(lst)) and version >= (2, 0):
-            part.violation("attribute-list-disagrees|%s" % kind, "GetAttributeList %s vs GetAttributes %s" % (
-                sorted(lst), sorted(got)), ctx)
+        exp_all = exp
+        # the registering version first, then every other version on the SAME long-lived engine
+        # (ascending without restart, descending after a restart): what an object reports under a
+        # version may not depend on which versions were served before
+        others = [v for v in W.VERSIONS if v != tuple(version)]
+        order = [tuple(version)] + (others if not restart else list(reversed(others)))
+        for rv in order:
+            exp = {k: v for k, v in exp_all.items() if V.attribute_status(k, rv) in ('defined', 'deprecated')
+                   or k == 'Operation Policy Name' and rv < (2, 0)}
+            if rv >= (2, 0):
+                exp.pop('Operation Policy Name', None)
+            got = _get_attributes(w, uid, rv)
+            lst = _get_attribute_list(w, uid, rv)
+            part.count('attribute_cases')
+            part.counters.setdefault('_out', set()).add((kind, rv, tuple(sorted(got or {}))))
+            rctx = dict(ctx, read_version=list(rv), read_order=[list(x) for x in order])
+            how = "KMIP %d.%d (registered under %d.%d, %d-th version read on this engine)" % (
+                rv[0], rv[1], version[0], version[1], order.index(rv) + 1)
+            if got is None or lst is None:
+                part.violation("attributes-unreadable|%s" % kind, "GetAttributes/List failed for %s under %s" % (
+                    kind, how), rctx)
+                return
+            for name in sorted(set(exp) | set(got)):
+                e, g = exp.get(name), got.get(name)
+                if e is None:
+                    part.violation("attribute-extra|%s" % name, "%s under %s reports '%s'=%r that was neither "
+                                   "supplied nor server-assigned" % (kind, how, name, g), rctx)
+                elif g is None:
+                    part.violation("attribute-missing|%s" % name, "%s under %s does not report '%s' (expected %r)"
+                                   % (kind, how, name, e), rctx)
+                elif e != ['*'] and e != g:
+                    part.violation("attribute-value|%s" % name, "%s under %s: '%s' is %r, supplied/assigned %r" % (
+                        kind, how, name, g, e), rctx)
+            if sorted(set(lst)) != sorted(set(got)) or len(lst) != len(set(lst)) and rv >= (2, 0):
+                part.violation("attribute-list-disagrees|%s" % kind, "GetAttributeList %s vs GetAttributes %s "
+                               "under %s" % (sorted(lst), sorted(got), how), rctx)
     finally:
         w.close()
 
@@ -440,7 +477,8 @@ def run(tier, seed):
     n = 32
     tasks = [('fidelity', (labels[i::n], combos)) for i in range(n) if labels[i::n]]
     sups = supplied_menu()
-    for k in W.KINDS:
+    for k in list(W.KINDS) + ['SymmetricKey@create', 'SymmetricKey@derive', 'PublicKey@pair',
+                              'PrivateKey@pair']:
         for j in range(2):
             tasks.append(('attributes', ([k], sups[j::2], acombos)))
     distinct = 0
@@ -449,16 +487,20 @@ def run(tier, seed):
         rep.merge(part)
     rt = rep.counters.get('round_trips', 0)
     ac = rep.counters.get('attribute_cases', 0)
-    if rt < 400 or ac < 1000:
-        rep.harness_error("vacuous: %d round trips, %d attribute cases" % (rt, ac))
+    origins = {k[7:]: v for k, v in rep.counters.items() if k.startswith('origin_')}
+    if rt < 400 or ac < 1000 or len(origins) < 4 or min(origins.values()) < 50:
+        rep.harness_error("vacuous: %d round trips, %d attribute cases, origins %s" % (rt, ac, origins))
     return rep.finish(dict(
-        evaluations=rt + ac, distinct_nontrivial=distinct,
+        evaluations=rt + ac, distinct_nontrivial=distinct, objects_by_origin=origins,
         rule="fidelity: %d object shapes (0/1 deviations from a default per kind: value length and "
              "pattern, every algorithm, every key-wrapping-data field present/falsy/absent, masks, names, "
              "key formats, split-key field menus incl. large primes, every secret/opaque data type x "
              "lengths, certificate) x %d (version, restart, interleaved operation) combinations through "
-             "the client and the real server; attributes: 7 kinds x 106 supplied-attribute sets (0/1/2 "
-             "deviations) x %d (version, restart) combinations. distinct_nontrivial = distinct (kind, "
+             "the client and the real server; attributes: 7 registered kinds + created and derived "
+             "symmetric keys + each half of a generated key pair (objects_by_origin) x 106 "
+             "supplied-attribute sets (0/1/2 deviations) x %d (version, restart) combinations, each "
+             "object then read (GetAttributes + GetAttributeList) under all six versions on the same "
+             "long-lived engine, ascending without and descending after a restart. distinct_nontrivial = distinct (kind, "
              "outcome) and (kind, version, reported attribute set) classes" % (len(labels), len(combos), len(acombos)),
         round_trips=rt, attribute_cases=ac, refused_by_server=rep.counters.get('refused', 0),
         exhaustive=False, deviation_bound_completed=1 if tier == 'quick' else 2,
